@@ -471,6 +471,69 @@ def fam_polyface(ctx, rng):
             ctx.violation(fam + ':off_faces', 'point %r is on no face plane' % (g,), desc)
 
 
+def fam_polyface_plane(ctx, rng):
+    """box / convex prism cut by a plane in general position (normals with mixed signs): one segment per crossed face, every
+    segment end on the plane and on an edge of the solid, nothing for separated planes"""
+    if rng.random() < 0.5:
+        pf = Polyface3D.from_box(G.dy(rng.uniform(2, 12)), G.dy(rng.uniform(2, 12)), G.dy(rng.uniform(2, 12)), Bd.plane(rng))
+    else:
+        b = G.convex_polygon(rng, n=rng.randint(3, 7), R=8.0, center=(0.0, 0.0))
+        frame = G.rational_frame(rng); o = G.rpt3(rng, 100.0)
+        base = Face3D([P3(G.embed(frame, o, p)) for p in b])
+        pf = Polyface3D.from_offset_face(base, G.dy(rng.uniform(2, 9)))
+    vs = [X.fpt(v) for v in pf.vertices]
+    c = tuple(sum(v[k] for v in vs) / len(vs) for k in range(3))
+    mode = rng.choice(['cut', 'cut', 'cut', 'corner', 'miss'])
+    n = G.rvec3(rng, 1)
+    if max(abs(t) for t in n) == 0:
+        return
+    ext = math.sqrt(max(float(X.sqd(v, c)) for v in vs))
+    if mode == 'cut':
+        o3 = tuple(float(c[k]) + rng.uniform(-0.3, 0.3) * ext * 0.5 for k in range(3))
+    elif mode == 'corner':
+        # clip the region near one vertex of the solid
+        v0 = vs[rng.randrange(len(vs))]
+        o3 = tuple(float(v0[k]) + 0.25 * (float(c[k]) - float(v0[k])) for k in range(3))
+        n = tuple(float(v0[k]) - float(c[k]) + rng.uniform(-0.2, 0.2) * ext for k in range(3))
+    else:
+        o3 = tuple(float(c[k]) + 3 * ext * (n[k] / math.sqrt(sum(t * t for t in n))) for k in range(3))
+    o3 = tuple(G.dy(t) for t in o3); n = tuple(G.dy(t, 12) for t in n)
+    if max(abs(t) for t in n) == 0:
+        return
+    pl = Plane(V3(n), P3(o3))
+    fn, fo = X.fpt(n), X.fpt(o3)
+    side = [X.dot(fn, X.sub(v, fo)) for v in vs]
+    nn = float(X.norm2(fn)) ** 0.5
+    margin = 1e-6 * ext * nn
+    if any(abs(float(t)) < margin for t in side):
+        return          # a vertex (numerically) on the plane: not general position
+    exp = 0
+    for f in pf.face_indices:
+        loop = f[0]
+        sg = [side[i] > 0 for i in loop]
+        if any(sg) and not all(sg):
+            exp += 1
+    desc = {'polyface': repr(pf.to_dict()), 'plane': repr(pl.to_dict()), 'mode': mode}
+    try:
+        res = pf.intersect_plane(pl)
+    except Exception as e:
+        ctx.violation('polyface3d.plane:raises', '%r' % (e,), desc); return
+    ctx.count('polyface3d.plane', key=(mode, exp, tuple(t > 0 for t in n)), sample=desc, nontrivial=exp > 0)
+    if len(res) != exp:
+        ctx.violation('polyface3d.plane:count', '%d faces are crossed transversally but %d segments were returned' % (exp, len(res)), desc); return
+    for sgm in res:
+        for pt in (sgm.p1, sgm.p2):
+            d = abs(float(X.dot(fn, X.sub(X.fpt(pt), fo)))) / nn
+            if d > 1e-7 * max(1.0, ext):
+                ctx.violation('polyface3d.plane:off_plane', 'segment end %r is %r off the plane' % (pt, d), desc); return
+            on_edge = False
+            for e in pf.edges:
+                if math.sqrt(float(X.sqdist_point_segment(X.fpt(pt), X.fpt(e.p1), X.fpt(e.p2)))) < 1e-6 * max(1.0, ext):
+                    on_edge = True; break
+            if not on_edge:
+                ctx.violation('polyface3d.plane:off_solid', 'segment end %r is on no edge of the solid' % (pt,), desc); return
+
+
 def fam_arc3d_plane(ctx, rng):
     arc = Bd.make(rng, 'Arc3D')
     cutter = Bd.plane(rng)
@@ -513,7 +576,7 @@ def fam_arc3d_plane(ctx, rng):
             ctx.violation(fam + ':spurious:' + inverted, '%d sign changes along the arc but %d points returned' % (expected, len(res or [])), desc)
 
 
-FAMILIES = [(fam_lines2d, 60), (fam_arc_line, 40), (fam_line_plane, 30), (fam_plane_plane, 15), (fam_sphere, 30),
+FAMILIES = [(fam_polyface_plane, 40), (fam_lines2d, 60), (fam_arc_line, 40), (fam_line_plane, 30), (fam_plane_plane, 15), (fam_sphere, 30),
             (fam_polygon_line, 30), (fam_face, 25), (fam_face_plane, 15), (fam_polyface, 8), (fam_arc3d_plane, 15)]
 
 
